@@ -157,6 +157,15 @@ func (c *searchCriterion) quickMatch(
 		ip := readJSONValue(line, `"IP":"`)
 		clientID := readJSONValue(line, `"CID":"`)
 
+		// The values above are the raw JSON text.  If any of them contains an
+		// escape sequence, it differs from the actual value, so the quick
+		// match cannot decide.  Let the full match do that after decoding.
+		if strings.IndexByte(host, '\\') >= 0 ||
+			strings.IndexByte(ip, '\\') >= 0 ||
+			strings.IndexByte(clientID, '\\') >= 0 {
+			return true
+		}
+
 		var name string
 		if cli := findClient(ctx, logger, clientID, ip); cli != nil {
 			name = cli.Name
